@@ -15,5 +15,5 @@ Extraction "../ocaml/codec_model.ml"
   get_to_python getmany_to_python getiter_new getnext_to_python getbulk_to_python err_to_exc
   c_unwrap c_recv_loop
   getnext_walk getbulk_walk fetch_walk effective_max_rep
-  run_api
+  run_api run_prog
   Z.add Z.mul Z.sub Z.opp Z.div_eucl Z.of_nat Z.compare Z.to_nat.
